@@ -826,6 +826,14 @@ func (fv *FuncVerifier) arrayAsSlice(st *State, x ast.Expr, au *types.Array, xt 
 // chanOp: a (possibly blocking) channel operation. With "flag nolockchan <lock>" the operation must not run while
 // that lock is held -- its counterpart runs under the lock and would wait for ever. Channel contents are not modelled.
 func (fv *FuncVerifier) chanOp(st *State, text string) {
+	// ghost counters of blocking channel operations completed (when a sidecar declares them): chanrecvs, chansends
+	g := "chansends"
+	if strings.HasPrefix(text, "<-") {
+		g = "chanrecvs"
+	}
+	if v, ok := st.ghost[g]; ok {
+		st.ghost[g] = Val{T: "(+ " + v.T + " 1)", Sort: "Int"}
+	}
 	lp := ""
 	if fv.contract != nil {
 		lp = fv.contract.Flags["nolockchan"]
